@@ -70,6 +70,9 @@ class ClassInfo:
     def lookup(self, name):
         """-> ('method'|'getter'|'const', info, owner) or None following the MRO"""
         for c in self.mro():
+            pfx = f"_{c.name.lstrip('_')}__"
+            if name.startswith(pfx) and name[len(pfx) - 2:] in c.methods:
+                return ("method", c.methods[name[len(pfx) - 2:]], c)
             if name in c.aliases:
                 name2 = c.aliases[name]
                 if name2 in c.methods:
